@@ -35,6 +35,8 @@ def vjson_to_py(v):
         return {k: vjson_to_py(x) for k, x in zip(v["ks"], v["vs"])}
     if t == "str":
         return bytes(v["b"]).decode("latin-1")
+    if t == "real":
+        return v["n"] / v["d"]
     raise ValueError("bad vjson " + repr(v))
 
 
@@ -506,4 +508,68 @@ def judge_closure(case, res):
         return "validityerror raised on a result: " + r["valid_exc"]
     if "json_exc" in r:
         return "result cannot be read (tojson raised): " + r["json_exc"]
+    return None
+
+
+# ------------------------------------------------------------------ ArrayBuilder behaviours (Builder.tla)
+def _bcmd(c):
+    out = dict(c)
+    if c["c"] == "str":
+        out["x"] = bytes(c["b"]).decode("latin-1")
+        del out["b"]
+    return out
+
+
+def steps_builder(case, pick):
+    return [{"op": "builder_run", "cmds": [_bcmd(c) for c in case["cmds"]], "initial": pick([1, 2, 3, 1024]),
+             "resize_num": pick([3, 4, 11]), "resize_den": 2, "capi": pick([0, 0, 1])}]
+
+
+def builder_values_equal(got, want):
+    """as values_equal, but a record may already show fields that a record still being filled has
+    introduced (the shared record type is updated when the field is named): such extra fields must be None"""
+    if isinstance(got, dict) and isinstance(want, dict):
+        gk = [k for k in got if k in want]
+        if gk != list(want.keys()):
+            return False
+        if any(got[k] is not None for k in got if k not in want):
+            return False
+        return all(builder_values_equal(got[k], want[k]) for k in want)
+    if isinstance(got, list) and isinstance(want, list):
+        return len(got) == len(want) and all(builder_values_equal(x, y) for x, y in zip(got, want))
+    return values_equal(got, want)
+
+
+def judge_builder(case, res):
+    if not res:
+        return "no result"
+    r = res[0]
+    if r.get("ok") != 1:
+        return "builder_run failed: %r" % (r.get("harness") or r.get("msg"))
+    steps = r["steps"]
+    obs = case["obs"]
+    for i, exp in enumerate(obs):
+        if i >= len(steps):
+            return "command %d (%s): no observation" % (i, case["cmds"][i]["c"])
+        got = steps[i]
+        if exp["ok"] == 3:
+            break            # unspecified from here on (only "no crash" applies)
+        if exp["ok"] == 0:
+            if got.get("ok") == 1:
+                return "command %d (%s): ill-nested call accepted, snapshot %s" % (i, case["cmds"][i]["c"], got.get("json"))
+            if got.get("exc") not in ("ValueError", "RuntimeError"):
+                return "command %d: not an ordinary exception: %s" % (i, got.get("exc"))
+            break
+        if got.get("ok") != 1:
+            return "command %d (%s): well-nested call raised %s: %s" % (i, case["cmds"][i]["c"], got.get("exc"), got.get("msg"))
+        try:
+            val = json.loads(got["json"])
+        except Exception as e:
+            return "command %d: snapshot json not parseable: %s" % (i, e)
+        if not builder_values_equal(val, vjson_to_py(exp["v"])):
+            return "command %d (%s): snapshot %s differs from appended values" % (i, case["cmds"][i]["c"], got["json"])
+        if got.get("valid", "") != "":
+            return "command %d: snapshot fails validity: %r" % (i, got.get("valid"))
+    if r.get("immutable") != 1:
+        return "an earlier snapshot changed: %s" % r.get("diff")
     return None
